@@ -1,6 +1,6 @@
 (* C16 - `cached` keys identify the call, not how it was written.  Statements only. *)
 From Coq Require Import List Ascii String Bool Arith ZArith.
-From TC Require Import PyStr Value Cached CachedProofs.
+From TC Require Import PyStr Value Dict Cached CachedProofs.
 Import ListNotations.
 
 (* The normalisation performed by the decorator binds every parameter exactly as Python does:
